@@ -232,7 +232,8 @@ def main(chk: core.Check) -> int:
     n, n_obj = (10000, 600) if chk.tier == "thorough" else (1500, 100)
     chk.coverage["rule"] = "evaluations = change_pivot calls along generated pivot sequences (length 1-8, pivots up to 4 m away); tolerance 1e-8 relative to track scale"
     chk.assumptions += ["theorems over the reals; float-only edge new_phi0 == float(2*pi) is outside the model", "hand-written model mirrors helix.py after the fix: commits"]
-    chk.prove(modules=["C11", "C11b"])
+    hc.regen(chk)
+    chk.prove(modules=["C11", "C11b", "HelixTie"])
     try:
         diffs = run(chk, n, n_obj)
         chk.coverage["traces_validated_against_impl"] = n
